@@ -12,7 +12,11 @@ pub fn point_curve2_deviation(station: &CurveStation2, point: &Point2) -> Surfac
     // TODO: is there a better way to handle corners?
     let sp = station.surface_point();
     let vector = point - station.point();
-    let normal = if vector.norm() < 1e-6 {
+    // When the offset is down at the rounding error of the coordinates themselves it has no
+    // direction of its own, and the normal of the station is used; any larger offset, however
+    // small in absolute terms, keeps its own direction so that the value is the full distance
+    let noise = f64::EPSILON * (station.point().coords.norm() + point.coords.norm());
+    let normal = if vector.norm() <= noise {
         sp.normal
     } else if vector.dot(&sp.normal) < 0.0 {
         UnitVec2::new_normalize(-vector)
